@@ -192,10 +192,18 @@ def jobs_for(ctx, only=None):
     n_split = 8
     for numeric in (False, True):
         req, cells = build(numeric)
+        # a sample of the cells once more with client logging at DEBUG (the REST transports then also render the request and the
+        # reply for the log record)
+        dcells = [dict(c, id='debug-logging/' + c['id']) for c in cells[::6]] if not numeric else []
         if only:
             if only.get('numeric') is not None and bool(only['numeric']) != numeric:
                 continue
+            dcells = [c for c in dcells if c['id'] in only['cells']]
             cells = [c for c in cells if c['id'] in only['cells']]
+        if dcells:
+            jobs.append(dict(id='rest/debug-logging', req=req.SerializeToString(), probe='mc.probes.rest',
+                             probe_args=dict(package=names.import_package(P), proto_package=P, cells=dcells, numeric=numeric,
+                                             seed=ctx.seed, thorough=ctx.thorough, debug_logging=True), _cells=dcells, _numeric=numeric))
         for k in range(n_split):
             part = cells[k::n_split]
             if not part:
@@ -240,7 +248,7 @@ def run(ctx, only=None):
             ctx.sample(s)
         for f in obs['failures']:
             fp = (f'{f["cause"]}|{f["kind"]}' if f.get('cause') else
-                  f'{f["cell"]}|numeric={int(job["_numeric"])}|{f["kind"]}|{f.get("sub", "")}')
+                  f'{f["cell"].replace("debug-logging/", "")}|numeric={int(job["_numeric"])}|{f["kind"]}|{f.get("sub", "")}')
             ctx.violation(fp,
                           f'{f["cell"]} numeric={job["_numeric"]} valuation={f["val"]}: {f["kind"]}: {f["detail"]}',
                           dict(numeric=job['_numeric'], cells=[f['cell']]))
